@@ -31,7 +31,7 @@ m = {
     "hooks": {
         "guard": "verif",
         "enable": "go build tag: go test -tags verif (new files */verif_hooks.go with //go:build verif)",
-        "baseline_off_cmd": "cd /repo && GOFLAGS=-mod=mod GOPROXY=off go test -vet=off -count=1 ./...",
+        "baseline_off_cmd": "cd /repo && go test -mod=mod -json -vet=off -count=1 -timeout 25m ./...",
         "source_commits": hooks_commits,
         "add_only": True,
     },
